@@ -36,13 +36,13 @@ def run(ctx):
                 "functions, rejected raw words in the stream) a fault-free generation is recorded; then at EVERY read of that run the same bytes are replayed "
                 "with an error after 0,1,2,3 bytes and with short deliveries (1,2,3 bytes, 1+1+1+1, 2+1, 1+3); plus complete small choice trees executed twice "
                 "with different raw representatives and chunkings; non-trivial = an injected fault or re-chunking; distinct (recipe, read, fault)")
-    ctx.rule = ctx.rule % (40 if quick else 600)
+    ctx.rule = ctx.rule % (40 if quick else 2500)
     ctx.model_check("Draw", "MC_Draw.cfg", "ReadFail -> panic with no result at any read; ReadShort never changes the outcome; result only in state done",
                     constants={"W": 5}, workers=vlib.NCPU)
     ctx.model_check("MC_CharGen", "MC_CharGen.cfg", "DrawFault at any draw -> terminal panic state, nothing returned (PanicIsTerminal, NoOutputUnlessDone)", workers=vlib.NCPU)
     ctx.model_check("MC_WordGen", "MC_WordGen.cfg", "DrawFault at any draw (caps, word, separator, entropy call) -> terminal panic state", workers=vlib.NCPU,
                     constants={"MaxLen": 2})
-    scen = scenarios(rng, 40 if quick else 600)
+    scen = scenarios(rng, 40 if quick else 2500)
     sf = ctx.path("fault-scen.ndjson")
     with open(sf, "w") as f:
         for s in scen:
